@@ -99,8 +99,8 @@ spec fn days_before_year(y: int) -> int { let p = y - 1; 365 * p + p / 4 - p / 1
 spec fn day_number(y: int, o: int) -> int { days_before_year(y) + o }
 spec fn MIN_Y() -> int { -262143 }
 spec fn MAX_Y() -> int { 262142 }
-spec fn DN_MIN() -> int { -95746811 }
-spec fn DN_MAX() -> int { 95745717 }
+spec fn DN_MIN() -> int { -95746129 }
+spec fn DN_MAX() -> int { 95745399 }
 spec fn UNIX_DAY() -> int { 719163 }
 spec fn month_len(y: int, m: int) -> int {
     if m == 2 { if is_leap(y) { 29 } else { 28 } } else if m == 4 || m == 6 || m == 9 || m == 11 { 30 } else { 31 }
@@ -168,6 +168,26 @@ proof fn dn_cycle(y: int, o: int)
     assert(y == 400 * q + ym);
 }
 
+// L1: the weekday of a date depends only on (year mod 400, ordinal): 146097 days = 20871 weeks
+proof fn weekday_cycle(y: int, o: int)
+    ensures weekday_of(day_number(y, o)) == weekday_of(days_before_year(y % 400) + o)
+{
+    dn_cycle(y, o); dn_cycle(y % 400, o);
+    let q = y / 400;
+    assert(day_number(y, o) == day_number(y % 400, o) + 146097 * q);
+    assert((day_number(y % 400, o) - 1 + 146097 * q) % 7 == (day_number(y % 400, o) - 1) % 7) by {
+        lemma_mod_multiples_vanish(20871 * q, day_number(y % 400, o) - 1, 7);
+        assert(146097 * q == 7 * (20871 * q));
+    }
+}
+// successor: the next day number is the next ordinal, or ordinal 1 of the next year (L2), and has the next weekday
+proof fn succ_is_next_day(y: int, o: int)
+    requires 1 <= o <= year_len(y)
+    ensures (o < year_len(y) ==> day_number(y, o + 1) == day_number(y, o) + 1),
+            (o == year_len(y) ==> day_number(y + 1, 1) == day_number(y, o) + 1),
+            weekday_of(day_number(y, o) + 1) == (weekday_of(day_number(y, o)) + 1) % 7
+{ dby_step(y); }
+
 proof fn slow_path(y: int, o: int, days: int, cdiv: int, cmod: int, y2mod: int, o2: int)
     requires 1 <= o <= year_len(y),
              cdiv == (cyc(y % 400, o) + days) / 146097, cmod == (cyc(y % 400, o) + days) % 146097,
@@ -180,6 +200,19 @@ proof fn slow_path(y: int, o: int, days: int, cdiv: int, cmod: int, y2mod: int, 
     dn_cycle(y, o); dn_cycle(y2, o2);
     assert(y2 / 400 == y / 400 + cdiv && y2 % 400 == y2mod);
     in_range(y2, o2);
+}
+
+proof fn from_days(days: int, q: int, cycle: int, ym: int, o: int)
+    requires q == (days + 365) / 146097, cycle == (days + 365) % 146097,
+             0 <= ym < 400, 1 <= o <= year_len(ym), cyc(ym, o) == cycle
+    ensures ({ let y = q * 400 + ym;
+               day_number(y, o) == days && 1 <= o <= year_len(y) && y % 400 == ym
+               && ((MIN_Y() <= y <= MAX_Y()) <==> (DN_MIN() <= days <= DN_MAX())) })
+{
+    let y = q * 400 + ym;
+    assert(y / 400 == q && y % 400 == ym);
+    dn_cycle(y, o);
+    in_range(y, o);
 }
 '''
 
